@@ -1582,9 +1582,10 @@ def gen_render_family(m, rng, job):
 SEQ_ALPHA = ['1', '31', '1;31', '38;5;214', '1;38;5;214', '38;5;214;1', '4;58;5;9', '38;2;1;2;3', '38;2;1;2;3;4',
              '48;5;7;22', '0', '', '22', '39', '0;1', '1;0', '99', '1;99;31', '21;24', '2;22;3', '38;5', '1;38;2;5;6',
              '58;2;9;8;7;53', '10', '11;10', '91;39;34', '1;38;2;255;128;64;48;2;100;100;100', '1;3;4;5;7;9;21;31;41;53;58;5;200;97;107',
-             '107', '1;107', '106;107;3', '38;2;255;255;255;48;2;0;0;0;58;2;128;128;128']
+             '107', '1;107', '106;107;3', '38;2;255;255;255;48;2;0;0;0;58;2;128;128;128',
+             '1;;3', ';1', '1;', '31;;1', ';', '38;5;;1', ';;', '4;;']
 SEQ_NONSGR = ['\x1b[2J', '\x1b[H', '\x1b[1;2H', '\x1b[K']
-SEQ_OUT_OF_CLAIM = ['\x1b[1;;3m', '\x1b[38;7;1m', '\x1b[38;5;300m', '\x1b[?1m', '\x1b[1:2m', '\x1b[ 1m']
+SEQ_OUT_OF_CLAIM = ['\x1b[38;7;1m', '\x1b[38;5;300m', '\x1b[?1m', '\x1b[1:2m', '\x1b[ 1m']
 
 
 def random_sgr(rng):
